@@ -7,7 +7,7 @@ int main(void)
 {
   world_init(0);
   uint32_t state = nondet_u32(), expected = nondet_u32(), seq = nondet_u32();
-  VF_ASSUME(IS_ESTABLISHED(state) && expected >= 1);
+  VF_ASSUME(IS_ESTABLISHED(state) && state != st_logon_received && expected >= 1);   /* st_logon_received is transient inside handle_logon: the Logon's own number is C20_logon's subject */
   vf_sess_set_seq(BASE, 7, expected); vf_sess_set_state(BASE, state); vf_sess_set_active(BASE, 1);
   vf_sess_set_flags(BASE, 1, 0, 0, 0, 0);
   uint8_t type[2] = { 'D', 0 }; msg_init(type, 1);
